@@ -14,6 +14,7 @@ device effect that differs from the fault-free run.
 """
 from __future__ import annotations
 
+import os
 import struct
 from typing import Any, Optional
 
@@ -874,6 +875,221 @@ def w_fault(task: dict) -> dict:
 # ---------------------------------------------------------------------------------------------
 
 
+
+# ---------------------------------------------------------------------------------------------
+# SDPS: one-way firmware download; the report size is negotiated per ROM and kept in a module-level table of the
+# SDP bulk protocol, so the histories mix SDPS transfers to different ROM classes with SDP-over-HID transfers in one process
+
+
+_SDPS_PARAMS: dict = {}
+_HID_REPORT_AT_IMPORT: dict = {}
+
+
+def _fresh_process_state() -> None:
+    """Every history is meant to start in a fresh interpreter; the workers are long-lived, so the one piece of module-level
+    state the SDP bulk protocol keeps (the report-size table) is put back to its value at import before and after a history."""
+    from spsdk.sdp.protocol import bulk_protocol as bp
+
+    if not _HID_REPORT_AT_IMPORT:
+        _HID_REPORT_AT_IMPORT.update(dict(bp.HID_REPORT))
+    bp.HID_REPORT.clear()
+    bp.HID_REPORT.update(_HID_REPORT_AT_IMPORT)
+
+
+def sdps_rom_params() -> dict:
+    if not _SDPS_PARAMS:
+        _SDPS_PARAMS.update(_sdps_rom_params())
+        try:   # former device names are accepted as well; the name mapping (only that) is taken from SPSDK
+            from spsdk.utils.database import DatabaseManager
+
+            for old, new in DatabaseManager().quick_info.devices.get_predecessors(list(_SDPS_PARAMS)).items():
+                if new in _SDPS_PARAMS and old not in _SDPS_PARAMS:
+                    _SDPS_PARAMS[old] = _SDPS_PARAMS[new]
+        except Exception:  # noqa
+            pass
+    return _SDPS_PARAMS
+
+
+def _sdps_rom_params() -> dict:
+    """family -> (no_cmd, hid_ep1, pack_size), read from the device description files with a plain YAML reader (not through
+    the SPSDK database code); families without the parameters fall under the documented defaults (no command, 1020)."""
+    import glob
+
+    import yaml
+
+    out = {}
+    for f in sorted(glob.glob(os.path.join(core.REPO, "spsdk/data/devices/*/database.yaml"))):
+        fam = os.path.basename(os.path.dirname(f))
+        try:
+            d = yaml.safe_load(open(f, encoding="utf-8"))
+        except Exception:  # noqa
+            continue
+        isp = ((d.get("info") or {}).get("isp") or {})
+        rom = isp.get("rom") or {}
+        if "sdps" not in str(rom.get("protocol", "")).lower():
+            continue
+        pp = rom.get("protocol_params") or {}
+        out[fam] = (bool(pp.get("no_cmd", True)), bool(pp.get("hid_ep1", True)), int(pp.get("hid_pack_size", 1020)))
+    return out
+
+
+def sdps_exec(hist: list, fault: Optional[list]) -> list:
+    """Run a history of ("sdps", family, length, salt) / ("sdp_wf", addr, length) operations in this process; fault =
+    [op index, report index, kind] makes the USB stack refuse one report of that operation. Returns per-op observations."""
+    from spsdk.exceptions import SPSDKError
+    from spsdk.sdp.interfaces.usb import SdpUSBInterface
+    from spsdk.sdp.sdps import SDPS
+    from spsdk.utils.interfaces.device.usb_device import UsbDevice
+    from vf.ref import sdp_dev as sd
+
+    params = sdps_rom_params()
+    obs = []
+    seen_sdps = False
+    for i, op in enumerate(hist):
+        o: dict[str, Any] = {"op": list(op)}
+        if op[0] == "sdps":
+            fam, n, salt = op[1], op[2], op[3]
+            no_cmd, _ep1, ps = params[fam]
+            dev = sd.SdpsDev(no_cmd, ps)
+            if fault and fault[0] == i:
+                dev.fail_at = (fault[1], fault[2])
+
+            class _H:
+                def Open(self, path):
+                    return None
+
+                def Close(self):
+                    return None
+
+                def Write(self, data, timeout_ms=0, _d=dev):
+                    CLOCK.tick(1e-3)
+                    return _d.host_write(bytes(data))
+
+                def Read(self, length, timeout_ms=0):
+                    CLOCK.tick((timeout_ms or 50) / 1000.0)
+                    return (b"", -1)
+
+            ud = UsbDevice(timeout=50)
+            ud._device = _H()
+            data = pat(n, salt)
+            try:
+                host = SDPS(SdpUSBInterface(ud), fam)
+                host.open()
+                o["ret"] = host.write_file(data)
+                host.close()
+            except Horizon:
+                o["horizon"] = True
+            except SPSDKError as e:
+                o["exc"] = type(e).__name__
+            except Exception as e:  # noqa
+                o["exc"] = type(e).__name__
+                o["undocumented"] = f"{type(e).__name__}: {e}"
+            o.update({"errors": dev.errors[:3], "cbw": dev.cbw, "got": bytes(dev.data), "reports": dev.reports[:6], "nrep": len(dev.reports),
+                      "want": data, "no_cmd": no_cmd, "ps": ps, "faulted": bool(fault and fault[0] == i and dev.n > fault[1])})
+            seen_sdps = True
+        else:
+            dev, link, fake, host = make_sdp_system("sdp-hid", {}, [])
+            link.lenient = seen_sdps
+            host.open()
+            r = run_op(dev, host, ("swrite_file", op[1], op[2]), {})
+            o.update({"sdp": True, "judge": judge_clean_sdp(("swrite_file", op[1], op[2]), r, "sdp-hid", {})})
+        obs.append(o)
+    return obs
+
+
+def sdps_judge(o: dict, pos: str) -> list:
+    v = []
+    if o.get("sdp"):
+        return [(c, d + ":after-sdps" if pos != "first" else d, m) for c, d, m in o["judge"]]
+    tag = f"sdps:{'cmd' if not o['no_cmd'] else 'nocmd'}-{o['ps']}:{pos}"
+    op = o["op"]
+    if o.get("horizon"):
+        return [("C10.bounded-time", tag, f"{op}: horizon")]
+    if "undocumented" in o:
+        return [("C10.undocumented-exception", tag + ":" + o["exc"], f"{op}: {o['undocumented']}")]
+    if o["faulted"]:
+        if "exc" not in o:
+            v.append(("C10.success-with-wrong-data", tag + ":refused-report-ignored", f"{op}: the USB stack refused a report, write_file returned normally; "
+                      f"device holds {len(o['got'])} of {len(o['want'])} bytes"))
+        elif o["exc"] != "SdpConnectionError":
+            v.append(("C10.undocumented-exception", tag + ":" + o["exc"], f"{op}: documented exception is SdpConnectionError"))
+        return v
+    if "exc" in o:
+        return [("C10.clean-op-raises", tag + ":" + o["exc"], f"{op}: raised {o['exc']} on a healthy link")]
+    if o["errors"]:
+        v.append(("C10.host-protocol-violation", tag + ":" + o["errors"][0][:40], f"{op}: ROM model saw {o['errors']}"))
+    want, got = o["want"], o["got"]
+    if got[:len(want)] != want or any(got[len(want):]) or len(got) - len(want) >= o["ps"]:
+        v.append(("C10.data-integrity", tag, f"{op}: ROM received {len(got)} bytes, first difference at "
+                  f"{next((k for k in range(min(len(got), len(want))) if got[k] != want[k]), min(len(got), len(want)))}; sent {len(want)}"))
+    if not o["no_cmd"]:
+        c = o["cbw"]
+        if c is None:
+            v.append(("C10.host-protocol-violation", tag + ":no-command-block", f"{op}: ROM with command phase got no command block"))
+        elif (c["sig"], c["xfer"], c["flags"], c["cmd"], c["belen"]) != (sd_BLTC(), len(want), 0, 2, len(want)):
+            v.append(("C10.command-fields", tag, f"{op}: command block {c}, length {len(want)}"))
+    return v
+
+
+def sd_BLTC() -> int:
+    from vf.ref import sdp_dev as sd
+
+    return sd.BLTC
+
+
+def w_sdps(task: dict) -> dict:
+    CLOCK.__init__()
+    hist, fault = [tuple(h) for h in task["hist"]], task.get("fault")
+    _fresh_process_state()
+    try:
+        obs = sdps_exec(hist, fault)
+    finally:
+        _fresh_process_state()
+    viol = []
+    for i, o in enumerate(obs):
+        pos = "first" if i == 0 else "after:" + "+".join(sorted({("sdp" if h[0] == "sdp_wf" else "sdps") for h in hist[:i]}))
+        for c, d, m in sdps_judge(o, pos):
+            viol.append((c, d, m + f" | history={hist} fault={fault}"))
+    outs = [("sdp" if o.get("sdp") else (o.get("exc"), o.get("nrep"), bool(o.get("cbw")))) for o in obs]
+    return {"viol": core.dedupe(viol), "count": {"sdps_executions": 1, "sdps_fault_executions": 1 if fault else 0}, "distinct": [core.jdump(outs)],
+            "nrep": [o.get("nrep", 0) for o in obs]}
+
+
+def sdps_tasks(tier: str) -> list:
+    params = sdps_rom_params()
+    classes: dict[tuple, list] = {}
+    for fam, p in params.items():
+        classes.setdefault((p[0], p[2]), []).append(fam)
+    reps = [sorted(v)[0] for _, v in sorted(classes.items())]
+    tasks = [{"hist": [["sdps", fam, params[fam][2] + 1, 0]]} for fam in sorted(params)]     # every family at the base transfer
+    alpha = []
+    for fam in reps:
+        ps = params[fam][2]
+        lens = [1, ps - 1, ps, ps + 1, 2 * ps + 5] if tier == "quick" else [0, 1, 30, 31, 32, ps - 1, ps, ps + 1, 2 * ps - 1, 2 * ps, 2 * ps + 5, 3 * ps + 1]
+        alpha += [["sdps", fam, n, k & 0xFF] for k, n in enumerate(lens)]
+    alpha += [["sdp_wf", 0x300, 1024], ["sdp_wf", 0x400, 1500]] if tier != "quick" else [["sdp_wf", 0x400, 1500]]
+    depth = 2 if tier == "quick" else 3
+    hists = [[a] for a in alpha]
+    level = hists
+    for _ in range(depth - 1):
+        if tier != "quick" and len(level[0]) == 2:
+            heads = [a for a in alpha if a[0] == "sdp_wf" or a[2] in (1, params[a[1]][2] + 1)]   # depth 3: reduced first two positions
+            level = [[a, b] for a in heads for b in heads]
+        level = [h + [a] for h in level for a in alpha]
+        hists += level
+    tasks += [{"hist": h} for h in hists]
+    # refused report at every position of every single transfer and of the second transfer of a pair
+    for fam in reps:
+        ps = params[fam][2]
+        for n in ([1, ps + 1, 2 * ps + 5] if tier == "quick" else [1, ps, ps + 1, 2 * ps + 5, 3 * ps + 1]):
+            nrep = (0 if params[fam][0] else 1) + -(-n // ps)
+            for k in range(nrep):
+                for kind in ("short", "neg", "raise"):
+                    tasks.append({"hist": [["sdps", fam, n, 9]], "fault": [0, k, kind]})
+                    tasks.append({"hist": [["sdp_wf", 0x400, 1500], ["sdps", fam, n, 9]], "fault": [1, k, kind]})
+    return tasks
+
+
 def configs(tier: str) -> list:
     out = []
     for mp in (32, 56, None) + ((1016,) if tier == "thorough" else ()):
@@ -940,11 +1156,28 @@ def run(ctx: core.Ctx) -> None:
         if ctx.absorb(case, res):
             for k, n in res.get("outcomes", {}).items():
                 fo[k] = fo.get(k, 0) + n
+    # SDPS
+    stasks = sdps_tasks(ctx.tier)
+    sdps_n = sdps_f = 0
+    sdps_out = set()
+    for case, res in ctx.pool_map(w_sdps, stasks, timeout=60, chunksize=8, initfn=install_clock, check_det=2):
+        if ctx.out_of_budget():
+            break
+        if ctx.absorb(case, res):
+            sdps_n += 1
+            sdps_f += 1 if case.get("fault") else 0
+            sdps_out.update(res.get("distinct", ()))
+    if sdps_n and not any(n > 1 for n in [0]) and len(sdps_out) < 4:
+        raise core.HarnessError("SDPS exploration is vacuous: fewer than 4 distinct observation shapes")
+    ctx.cov["sdps"] = {"histories": sdps_n - sdps_f, "refused_report_executions": sdps_f, "distinct_observation_shapes": len(sdps_out),
+                       "rom_classes": sorted({f"{'cmd' if not p[0] else 'nocmd'}-{p[2]}" for p in sdps_rom_params().values()}),
+                       "families_at_base": len(sdps_rom_params())}
+    ctx.sample({"sdps_history": stasks[-1]})
     ctx.sample({"fault_task": ftasks[0], "fault_kinds_serial": ["flip(bit)", "drop", "truncate", "insert00", "pause(short read)", "nak", "abort", "dup", "reject(device NAKs and discards the k-th host frame)"],
                 "fault_kinds_hid": ["drop", "truncate", "abort(zero-length)", "dup", "empty", "short", "hdrflip(byte,bit)"]})
     ctx.cov["states"] = ctx.counters.get("states", 0)
     ctx.cov["transitions"] = ctx.counters.get("transitions", 0)
-    ctx.cov["traces_validated_against_impl"] = ctx.counters.get("transitions", 0) + ctx.counters.get("fault_executions", 0)
+    ctx.cov["traces_validated_against_impl"] = ctx.counters.get("transitions", 0) + ctx.counters.get("fault_executions", 0) + ctx.counters.get("sdps_executions", 0)
     ctx.cov["evaluations"] = ctx.cov["traces_validated_against_impl"]
     ctx.cov["distinct_nontrivial"] = ctx.counters.get("states", 0)
     ctx.cov["fault_executions"] = ctx.counters.get("fault_executions", 0)
@@ -961,13 +1194,14 @@ def run(ctx: core.Ctx) -> None:
                 "distinct_nontrivial = canonical states reached")
     ctx.assumptions += ["the reference bootloader in vf/ref/mboot_dev.py is the protocol definition (written from the documented framing and packet layouts)",
                         "USB-HID payload corruption is undetectable by any host (no checksum in the report) and is not injected; header/length/"
-                        "sequence faults are", "SDP has no checksum at all: value faults are injected into HAB/completion words only, duplicated words/reports are not injected (indistinguishable from data)", "SDPS and the buspal/usbsio/CAN/SDIO device classes are not explored"]
+                        "sequence faults are", "SDP has no checksum at all: value faults are injected into HAB/completion words only, duplicated words/reports are not injected (indistinguishable from data)", "SDPS: firmware download over USB-HID only (every family at a base transfer; histories of transfers to the three ROM classes mixed with SDP-over-HID "
+                        "transfers in one process; every report refused by the USB stack in three ways); the buspal/usbsio/CAN/SDIO device classes are not explored"]
 
 
 def replay(ctx: core.Ctx, rec: dict) -> bool:
     install_clock()
     case = rec["case"]
-    res = w_bfs(case) if "depth" in case else w_fault(case)
+    res = w_bfs(case) if "depth" in case else (w_sdps(case) if "hist" in case else w_fault(case))
     hits = [v for v in res["viol"] if v[0] == rec["clause"] and v[1] == rec["disc"]]
     for h in hits[:3]:
         print(h)
